@@ -1048,7 +1048,26 @@ func (ns Nodes) Sort(o NodeOrder) error {
 // compareNodes compares two nodes to provide a deterministic ordering
 // between them. Two nodes cannot have the same Node.Info value.
 func compareNodes(l, r *Node) bool {
-	return fmt.Sprint(l.Info) < fmt.Sprint(r.Info)
+	// Nodes of a call tree may share their Info with nodes reached through a
+	// different path; fall back to comparing the (single) parents.
+	for l != nil && r != nil && l != r {
+		if li, ri := fmt.Sprint(l.Info), fmt.Sprint(r.Info); li != ri {
+			return li < ri
+		}
+		l, r = soleParent(l), soleParent(r)
+	}
+	return l == nil && r != nil
+}
+
+// soleParent returns the only caller of n, or nil if there is none or several.
+func soleParent(n *Node) *Node {
+	if len(n.In) != 1 {
+		return nil
+	}
+	for p := range n.In {
+		return p
+	}
+	return nil
 }
 
 // entropyScore computes a score for a node representing how important
@@ -1159,8 +1178,13 @@ func (el edgeList) Less(i, j int) bool {
 
 	to1 := el[i].Dest.Info.PrintableName()
 	to2 := el[j].Dest.Info.PrintableName()
-
-	return to1 < to2
+	if to1 != to2 {
+		return to1 < to2
+	}
+	if el[i].Src != el[j].Src {
+		return compareNodes(el[i].Src, el[j].Src)
+	}
+	return compareNodes(el[i].Dest, el[j].Dest)
 }
 
 func (el edgeList) Swap(i, j int) {
